@@ -31,6 +31,7 @@ package ipfamily
 //@   ensures result1 == nil ==> (result0 == IPv4 || result0 == IPv6 || result0 == DualStack)
 //@   ensures result1 == nil ==> ((result0 == DualStack) == (len(ips) == 2))
 //@   modifies fresh []string, fresh []interface{}
+//@   loop 1 binds ip
 //@   loop 1 invariant (ipsStrings == nil || fresh(ipsStrings)) && len(ipsStrings) == iter
 
 // ForService: the family of the Service's cluster IPs (spec.clusterIPs, else spec.clusterIP): a read-only function
